@@ -360,10 +360,12 @@ func execNest(c *ctx, idx int) *nestResult {
 		opf{"Remove", "own", wk, remove(wk)},
 		opf{"Add", "own", wk, gatedAdd(wk, val(wk))},
 		opf{"Len", "own", 0, func() { t.length() }},
+		// radical eviction of one segment takes that segment's lock only
+		opf{"ClearSegment", "third", z1, func() { t.inner.ClearSegment(cs.ThirdSeg) }},
 	)
 	var wg sync.WaitGroup
 	thirdFail := func(name string, k uint64, seg int, still bool) *seqFail {
-		return &seqFail{sig: "lock-nesting/" + name + "-third-segment-behind-spilling-writer", what: fmt.Sprintf("%s table, capacity %d, %d segments: an over-capacity insert of key %#x (segment %d) is parked on the write lock of segment %d, which the harness holds (writer still parked: %v); %s on key %#x of a THIRD segment %d did not complete within %v: the spilling writer holds the lock of a segment it is not working on while it waits for another one", cs.Table, cs.Capacity, cs.Segments, wk, cs.OwnSeg, cs.HeldSeg, still, name, k, seg, nolockWait)}
+		return &seqFail{sig: "lock-nesting/" + name + "-third-segment-behind-spilling-writer", what: fmt.Sprintf("%s table, capacity %d, %d segments: an over-capacity insert of key %#x (segment %d) is parked on the write lock of segment %d, which the harness holds (writer still parked: %v); %s on key %#x of a THIRD segment %d did not complete within %v although it does not leave the table over capacity: it waits on a lock that is not its own segment's - either the parked writer still holds a segment it is not working on, or the operation itself takes locks across segments", cs.Table, cs.Capacity, cs.Segments, wk, cs.OwnSeg, cs.HeldSeg, still, name, k, seg, nolockWait)}
 	}
 	ownFail := func(name string, k uint64, still bool) *seqFail {
 		return &seqFail{sig: "lock-nesting/" + name + "-behind-spilling-writer", what: fmt.Sprintf("%s table, capacity %d, %d segments: an over-capacity insert of key %#x (segment %d) is parked on the write lock of segment %d, which the harness holds (writer still parked: %v); %s on key %#x of the writer's OWN segment %d did not complete within %v. The spilling writer still holds its own segment while it waits for another one: segment locks nest, everything behind that segment waits on a lock it does not need, and two such writers can deadlock", cs.Table, cs.Capacity, cs.Segments, wk, cs.OwnSeg, cs.HeldSeg, still, name, k, cs.OwnSeg, nolockWait)}
